@@ -12,12 +12,7 @@ class AbstractOnlineInterpreter(AbstractInterpreter):
         return
 
     def reset(self):
-        # reset sub-specs
-        for key in self.ast.var_subspec_dict:
-            node = self.ast.var_subspec_dict[key]
-            self.resetVisitor.visitAst(node, self.online_operator_dict)
-
-        # reset spec
+        # reset spec and sub-specs (every assertion, sub-specs included, is an entry of ast.specs)
         self.resetVisitor.visitAst(self.ast, self.online_operator_dict)
         return
 
